@@ -21,17 +21,17 @@ def listed (m : State) (fid l x : Nat) : Bool :=
       | none => false
       | some li => (li.sigs f.data.1).contains (f.data.2, x)
 
-def monitorNext (m : State) (fid idx : Nat) : Step Nat :=
+def monitorNext (m : State) (fid : Nat) (idx : Option Nat) : Step (Option Nat) :=
   match next m fid idx with
   | .call l x p => if listed m fid l x then .call l x p else .fault
   | .done => .done
   | .fault => .fault
 
-def monitored : Machine State Nat Nat := { machine with next := monitorNext }
+def monitored : Machine State Nat (Option Nat) := { machine with next := monitorNext }
 
 /-- at every invocation decided in a `Sim` state the monitor's condition holds -/
-theorem listed_of_sim {m : State} {s : SState} {K : MStack} {fid idx : Nat} {eg : Nat × Nat}
-    {snap : List Nat} {l x p' : Nat} (h : Sim m s (((fid, idx), (eg, snap)) :: K))
+theorem listed_of_sim {m : State} {s : SState} {K : MStack} {fid : Nat} {idx : Option Nat} {eg : Nat × Nat}
+    {snap : List Nat} {l x : Nat} {p' : Option Nat} (h : Sim m s (((fid, idx), (eg, snap)) :: K))
     (hcall : next m fid idx = .call l x p') : listed m fid l x = true := by
   obtain ⟨e, g⟩ := eg
   have hc := h.cur
@@ -113,7 +113,7 @@ theorem monitoredOK : SimOK monitored Spec.machine Sim where
 
 /-- monitored model against plain model: same state, same loops, and some specification state
     the common state is related to -/
-def SimM (m m' : State) (K : Stack Nat Nat Nat Nat) : Prop :=
+def SimM (m m' : State) (K : Stack Nat (Option Nat) Nat (Option Nat)) : Prop :=
   m = m' ∧ (∀ k ∈ K, k.1 = k.2) ∧ ∃ (s : SState) (Ks : MStack), Sim m s Ks ∧ Ks.map (·.1) = K.map (·.1)
 
 theorem monitor_transparent_sim : SimOK monitored machine SimM where
